@@ -144,7 +144,9 @@ func batchModels(all bool) []*batchModel {
 	var out []*batchModel
 	N := hx.DimSpec{Param: "N"}
 	fx := func(d int) hx.DimSpec { return hx.DimSpec{Fixed: int64(d)} }
-	init := func(name string, sh ...int) *onnx.TensorProto { return hx.TensorProto(name, recFill(ref.F32, sh, len(name)*3+len(sh)), "raw") }
+	init := func(name string, sh ...int) *onnx.TensorProto {
+		return hx.TensorProto(name, recFill(ref.F32, sh, len(name)*3+len(sh)), "raw")
+	}
 	iinit := func(name string, v ...int64) *onnx.TensorProto { return hx.TensorProto(name, ref.I64Vec(v...), "raw") }
 	type stage struct {
 		name  string
@@ -219,10 +221,18 @@ func batchModels(all bool) []*batchModel {
 		}
 	}
 	pres := []*stage{nil,
-		{"Relu", func(in, o string) []*onnx.NodeProto { return []*onnx.NodeProto{hx.Node("Relu", []string{in}, []string{o}, nil)} }, nil},
-		{"Add-bias", func(in, o string) []*onnx.NodeProto { return []*onnx.NodeProto{hx.Node("Add", []string{in, "pre_b"}, []string{o}, nil)} }, []*onnx.TensorProto{init("pre_b", 3)}},
-		{"Mul", func(in, o string) []*onnx.NodeProto { return []*onnx.NodeProto{hx.Node("Mul", []string{in, in}, []string{o}, nil)} }, nil},
-		{"Tanh", func(in, o string) []*onnx.NodeProto { return []*onnx.NodeProto{hx.Node("Tanh", []string{in}, []string{o}, nil)} }, nil},
+		{"Relu", func(in, o string) []*onnx.NodeProto {
+			return []*onnx.NodeProto{hx.Node("Relu", []string{in}, []string{o}, nil)}
+		}, nil},
+		{"Add-bias", func(in, o string) []*onnx.NodeProto {
+			return []*onnx.NodeProto{hx.Node("Add", []string{in, "pre_b"}, []string{o}, nil)}
+		}, []*onnx.TensorProto{init("pre_b", 3)}},
+		{"Mul", func(in, o string) []*onnx.NodeProto {
+			return []*onnx.NodeProto{hx.Node("Mul", []string{in, in}, []string{o}, nil)}
+		}, nil},
+		{"Tanh", func(in, o string) []*onnx.NodeProto {
+			return []*onnx.NodeProto{hx.Node("Tanh", []string{in}, []string{o}, nil)}
+		}, nil},
 	}
 	for _, pre := range pres {
 		for _, m := range vec() {
